@@ -11,7 +11,7 @@ import (
 func (x *Exec) loopSpec(fr *Frame, idx int) *LoopSpec {
 	c := fr.contract
 	if c == nil {
-		if fc, ok := x.db.Funcs[fr.fn.String()]; ok {
+		if fc, ok := x.db.Funcs[shortFn(fr.fn)]; ok {
 			c = fc
 		}
 	}
@@ -123,7 +123,7 @@ func (x *Exec) havocLoop(fr *Frame, st *State, h *ssa.BasicBlock, body map[*ssa.
 			case *ssa.MapUpdate:
 				keys[mapMemKey(t.Map.Type())] = true
 			case *ssa.Defer:
-				x.unsupp("defer inside a loop in %s", fr.fn.String())
+				x.unsupp("defer inside a loop in %s", shortFn(fr.fn))
 			case ssa.CallInstruction:
 				if _, isBuiltin := t.Common().Value.(*ssa.Builtin); !isBuiltin {
 					anyCall = true
@@ -162,10 +162,6 @@ func (x *Exec) havocLoop(fr *Frame, st *State, h *ssa.BasicBlock, body map[*ssa.
 	for a := range cells {
 		et := deref(a.Type())
 		st.cells[a] = x.freshOfType(st, "hv_"+a.Comment, et)
-		if x.vc.sortOf(et) == "Ptr" {
-			// a havocked pointer need not be old; undo the oldptr fact by using a plain constant
-			st.cells[a] = x.vc.freshConst("hv_"+a.Comment, "Ptr")
-		}
 	}
 	x.havocKeys(st, sortedKeys(keys))
 	for _, ins := range h.Instrs {
